@@ -241,7 +241,11 @@ func c12Judge(s c12Seq, obs []c12Obs) (*c12Verdict, int) {
 
 // c12Flags: which listed-finding patterns does the operation `op` (about to run in reference state ref, with
 // the records `cur` existing) exhibit.  Each pattern is a decidable predicate over the sequence prefix.
-func c12Flags(s c12Seq, k *c12Kind, ref *c12Ref, op c12Op, labels [][]string, cur map[int]string, handed map[string]int, flags map[string]bool) {
+func c12Flags(s c12Seq, k *c12Kind, ref *c12Ref, op c12Op, labels [][]string, cur map[int]string, handed map[string]int, flags map[string]bool, dirt *c12Dirt) {
+	// F12h: the call goes through a handle whose *gorm.DB an earlier statement-building call has already used (c12_handles.go)
+	if dirt.step(k, op) {
+		flags["F12h-reused-handle-keeps-statement-of-previous-call"] = true
+	}
 	// F12a: belongs-to + Unscoped Append/Replace/Delete/Clear (the delete statement aims at the wrong record / table)
 	if k.Class == "bt" && op.Unscoped {
 		flags["F12a-belongs-to-unscoped-deletes-wrong-record"] = true
@@ -308,6 +312,8 @@ func c12Flags(s c12Seq, k *c12Kind, ref *c12Ref, op c12Op, labels [][]string, cu
 func c12JudgeF(s c12Seq, obs []c12Obs) (*c12Verdict, int, map[string]bool) {
 	flags := map[string]bool{}
 	handed := map[string]int{}
+	dirt := &c12Dirt{}
+	sticky := &c12Sticky{}
 	for _, b := range s.Own {
 		handed[fmt.Sprint("t", b)] = 0 // held by the first operated owner from the start
 	}
@@ -326,12 +332,24 @@ func c12JudgeF(s c12Seq, obs []c12Obs) (*c12Verdict, int, map[string]bool) {
 		}
 		o := obs[step]
 		labels := c12OpLabels(s, step, op, cur)
-		c12Flags(s, k, ref, op, labels, cur, handed, flags)
-		if o.Err != "" {
+		c12Flags(s, k, ref, op, labels, cur, handed, flags, dirt)
+		refused := sticky.before(op) && o.Err != ""
+		if op.Bad {
+			if o.BadErr == "" {
+				// latitude: the ill-typed Append was accepted - the text says nothing about such a call; the sequence is not judged further
+				return nil, judged, flags
+			}
+			// the handle has failed once: it may refuse the call (error, nothing changes) or perform it in full
+			refused = o.Err != ""
+			sticky.failed(op)
+		}
+		if o.Err != "" && !refused {
 			// every generated call is well-formed (saved owners, one argument per owner): the API has no reason to refuse it
 			return &c12Verdict{Step: step, What: "the operation returned an error", Got: o.Err, Want: "no error", Class: "error"}, judged, flags
 		}
-		ref.apply(op, owners, labels)
+		if !refused {
+			ref.apply(op, owners, labels)
+		}
 		judged++
 		cur = map[int]string{}
 		for _, id := range o.Targets {
@@ -441,6 +459,7 @@ type c12GenCfg struct {
 	Slice    float64 // probability of a slice of owners
 	MaxLen   int
 	Avoid    float64 // probability that a sequence stays outside the patterns of the listed findings
+	Handles  float64 // probability that the calls of a sequence go through handles kept in variables (c12_handles.go)
 	Tie      bool    // correspondence suite: stay outside the patterns the link-store model does not reproduce (F12g; F12c on referenced-column many2many)
 }
 
@@ -472,6 +491,10 @@ func c12GenSeq(rng *rand.Rand, cfg c12GenCfg) c12Seq {
 	n := 1 + rng.Intn(cfg.MaxLen)
 	next := c12Sentinel + 1
 	created := [][]int{{}, {}} // per owner: keys of the records it created (simulated)
+	plan := rng.Float64() < cfg.Handles
+	dirtGen := &c12Dirt{}
+	afterBad := false
+	stickyGen := &c12Sticky{}
 	for i := 0; i < n; i++ {
 		op := c12Op{Shape: rng.Intn(3)}
 		if rng.Intn(2) == 0 { // state of the argument records: built by hand / loaded / loaded with their own relations / stale fk / key only
@@ -491,6 +514,48 @@ func c12GenSeq(rng *rand.Rand, cfg c12GenCfg) c12Seq {
 		// is valid SQL on the shared table (the model of F12a is written for distinct tables): not generated
 		if uns && rng.Intn(2) == 0 && !(avoid && k.Class == "bt") && k.Name != "self_belongs_to" && !(k.Ref && k.Class == "bt") {
 			op.Unscoped = true
+		}
+		opName := op.Op
+		noNew := false
+		if plan {
+			// the handle the call goes through: fresh / kept in a variable / the kept Unscoped() copy; Unscoped() called in between
+			if rng.Intn(4) > 0 {
+				op.Via = 1
+				if op.Unscoped {
+					op.Via = 2
+				}
+				op.Renew = rng.Intn(6) == 0
+			}
+			if rng.Intn(3) > 0 {
+				op.Touch = 1 + rng.Intn(c12Touches-1)
+			}
+			if !cfg.Tie && rng.Intn(4) == 0 {
+				op.Other = 1 + rng.Intn(c12Others-1)
+			}
+			if !cfg.Tie && rng.Intn(10) == 0 && opName != "delete" {
+				op.Bad = true
+			}
+			if afterBad && op.Via != 0 && rng.Intn(2) == 0 {
+				op.Renew = true
+			}
+			afterBad = (afterBad && !op.Renew) || (op.Bad && op.Via != 0)
+			probe := *dirtGen
+			if probe.step(k, op) && (avoid || cfg.Tie) {
+				// stay outside listed finding F12h: no read through the handle before the call, a used handle is built anew
+				if op.Touch == c12TouchCount || op.Touch == c12TouchFind {
+					op.Touch = 1 + rng.Intn(3)
+				}
+				if op.Via != 0 {
+					op.Renew = true
+				}
+			}
+			dirtGen.step(k, op)
+			// a call that may be refused (ill-typed value first / a struct that has failed before) creates nothing: it names no keyless record,
+			// so that the keys simulated for later operations stay those the database assigns
+			noNew = stickyGen.before(op) || op.Bad
+			if op.Bad {
+				stickyGen.failed(op)
+			}
 		}
 		nextAtStart := next
 		pick := func(owner int) int {
@@ -531,7 +596,7 @@ func c12GenSeq(rng *rand.Rand, cfg c12GenCfg) c12Seq {
 			}
 			vs := []int{}
 			for j := 0; j < cnt; j++ {
-				if allowNew && rng.Intn(4) == 0 {
+				if allowNew && !noNew && rng.Intn(4) == 0 {
 					vs = append(vs, 0)
 					continue
 				}
@@ -630,6 +695,9 @@ func c12Hist(r *Result, pfx string, s c12Seq) {
 			n += "+unscoped"
 		}
 		r.H(pfx+".op", n)
+		if op.Via != 0 || op.Touch != 0 || op.Other != 0 || op.Bad {
+			r.H(pfx+".handle", fmt.Sprintf("via=%d renew=%v touch=%d other=%d bad=%v", op.Via, op.Renew, op.Touch, op.Other, op.Bad))
+		}
 		r.H(pfx+".argument_state", []string{"fresh", "loaded", "preloaded", "stale-fk", "key-only"}[op.Arg])
 		if len(op.Vals) == 0 || (len(op.Vals) == 1 && len(op.Vals[0]) == 0) {
 			r.H(pfx+".zero_values", fmt.Sprintf("%s/card1=%v/empty_slice=%v", op.Op, c12KindByName(s.Kind).Card1, op.Empty))
@@ -657,6 +725,7 @@ var c12Probes = map[string]string{
 	"F12c-many2many-returning-backfill":              `{"kind":"many2many","owners":1,"pre":[],"by":[],"ops":[{"op":"append","vals":[[14,0]],"shape":0}]}`,
 	"F12d-many2many-slice-replace-keeps-foreign-new": `{"kind":"many2many","owners":2,"pre":[11,12],"by":[],"ops":[{"op":"append","vals":[[11],[12]],"shape":0},{"op":"replace","vals":[[12],[11]],"shape":0}]}`,
 	"F12g-single-valued-empty-slice-argument": `{"kind":"has_one","owners":1,"pre":[14],"by":[],"own":[14],"ops":[{"op":"replace","vals":[[]],"shape":1,"empty":true}]}`,
+	"F12h-reused-handle-keeps-statement-of-previous-call": `{"kind":"has_many","owners":1,"pre":[11,12],"by":[],"own":[],"ops":[{"op":"append","vals":[[11,12]],"shape":0,"via":1},{"op":"delete","vals":[[11]],"shape":0,"via":1},{"op":"delete","vals":[[12]],"shape":0,"via":1}]}`,
 	"F12e-moved-target-stale-in-memory-copy":         `{"kind":"has_many","owners":2,"pre":[11],"by":[],"ops":[{"op":"append","vals":[[11],[]],"shape":1},{"op":"append","vals":[[],[11]],"shape":1}]}`,
 }
 
@@ -762,7 +831,7 @@ func init() {
 		for _, k := range c12Kinds {
 			kinds = append(kinds, k.Name)
 		}
-		cfg := c12GenCfg{Kinds: kinds, Unscoped: 0.35, Slice: 0.4, MaxLen: 8, Avoid: 0.85}
+		cfg := c12GenCfg{Kinds: kinds, Unscoped: 0.35, Slice: 0.4, MaxLen: 8, Avoid: 0.85, Handles: 0.45}
 		c12RunProbes(r)
 		for i := 0; i < n && !expired(); {
 			var batch []c12Seq
